@@ -245,6 +245,8 @@ PROP_GEN = {
             "main_deps": ["AutomatonProofs.vo", "GenBase.vo"], "main_cone": ["AutomatonProofs.v", "GenBase.v"]},
     "C02": {"modules": ["AutomatonGen"], "files": ["GenLinkAutomaton.v", "GenPropsAutomaton.v", "C02g.v"],
             "main_deps": ["AutomatonProofs.vo", "GenBase.vo"], "main_cone": ["AutomatonProofs.v", "GenBase.v"]},
+    "C03": {"modules": ["RegexNodeGen"], "files": ["GenLinkRegexNode.v", "GenPropsRegexNode.v", "C03g.v"],
+            "main_deps": ["SemProofs.vo", "MergeProofs.vo", "GenBase.vo"], "main_cone": ["SemProofs.v", "MergeProofs.v", "GenBase.v"]},
     "C13": {"modules": ["BuilderGen"], "files": ["GenLinkBuilder.v", "GenPropsBuilder.v", "C13g.v"],
             "main_deps": ["BuilderProofs.vo", "GenBase.vo"], "main_cone": ["BuilderProofs.v", "GenBase.v"]},
     "C15": {"modules": ["LoopRangeGen"], "files": ["GenLinkLoopRange.v", "GenPropsLoopRange.v", "C15g.v"],
@@ -272,8 +274,9 @@ PROP_GEN = {
 # model the property's theorems speak about is no longer the code.
 _REGEX_SUPPORT = ["C20", "C11", "C12", "C15"]
 SUPPORT_GEN = {
-    "C01": _REGEX_SUPPORT, "C02": _REGEX_SUPPORT + ["C13"], "C03": _REGEX_SUPPORT, "C05": _REGEX_SUPPORT, "C07": _REGEX_SUPPORT,
-    "C10": _REGEX_SUPPORT, "C16": _REGEX_SUPPORT, "C18": _REGEX_SUPPORT, "C19": _REGEX_SUPPORT + ["C13", "C02"],
+    "C01": _REGEX_SUPPORT + ["C03"], "C02": _REGEX_SUPPORT + ["C03", "C13"], "C03": _REGEX_SUPPORT, "C05": _REGEX_SUPPORT + ["C03"],
+    "C07": _REGEX_SUPPORT + ["C03"], "C10": _REGEX_SUPPORT + ["C03"], "C16": _REGEX_SUPPORT + ["C03"], "C18": _REGEX_SUPPORT + ["C03"],
+    "C19": _REGEX_SUPPORT + ["C03", "C13", "C02"],
     "C04": ["C20", "C11", "C12", "C14", "C13", "C02"], "C13": ["C20", "C11", "C12", "C02"], "C14": ["C20", "C11", "C12", "C13", "C02"],
     "C17": ["C08", "C06", "C09"], "C11": ["C20"], "C12": ["C20", "C11"],
 }
